@@ -317,8 +317,8 @@ def kernel_codes(ctx, name, terms):
 
 def run_kernel(ctx, items, results):
     """model vs client inside Coq -> ({item index: component codes}, failing item indices, evaluated indices)"""
-    # quick tier: every corpus / stored report, every second run and synthetic report (the tokenisation oracle sees all)
-    sel = [i for i, it in enumerate(items) if not ctx.quick or it['origin'] in ('corpus', 'stored') or i % 2 == 0]
+    # quick tier: every corpus report and every third other report (the tokenisation oracle sees all of them)
+    sel = [i for i, it in enumerate(items) if not ctx.quick or it['origin'] == 'corpus' or i % 3 == 0]
     terms = [full_term(items[i], results[i], with_csv=(k % 3 == 0 or items[i]['origin'] == 'corpus')) for k, i in enumerate(sel)]
 
     def body(lo, hi):
